@@ -5,7 +5,7 @@ FILES = ["fandango/constraints/base.py", "fandango/constraints/expression.py", "
          "fandango/constraints/conjunction.py", "fandango/constraints/disjunct.py", "fandango/constraints/exists.py",
          "fandango/constraints/forall.py", "fandango/constraints/implication.py", "fandango/language/search.py",
          "fandango/language/parse/convert.py", "fandango/evolution/evaluation.py"]
-NPROG = 35
+NPROG = 38
 # programs that never hold on a two-record tree (twin asks for a violated tree instead)
 NEVER_TRUE_2REC = {9: False}
 ENCODED = ["ExpressionConstraint/ComparisonConstraint/ConjunctionConstraint/DisjunctionConstraint/ForallConstraint/ExistsConstraint.fitness",
@@ -29,7 +29,7 @@ def conds_for(progs, tier, fn="verdict", twins=True):
     return out
 
 
-QUICK_SKIP = {3, 5, 12, 13, 15, 25, 32}  # near-duplicates of other programs; run in the thorough tier only
+QUICK_SKIP = {3, 5, 12, 13, 15, 25, 32, 35}  # near-duplicates of other programs; run in the thorough tier only
 TWINS = {0, 8, 14, 17, 21, 24, 30}
 
 
